@@ -105,7 +105,8 @@ def blind_histories(ctx):
             steps += [op(s, k, rng.randrange(4)) for s in pre] + [op(o, k, rng.randrange(4))]
         cat.append(steps)
     walks = []
-    alphabet = [(o, "") for o in LIFE] * 4 + [("recv", "noseed")] * 2 + pairs + [(o, "") for o in SWITCH] * 2
+    alphabet = [(o, "") for o in LIFE] * 4 + [("recv", "noseed")] * 2 + pairs + [(o, "") for o in SWITCH] * 2 \
+        + [("enq", "sameseed")] * 4 + [("recv", "sameseed")] * 2
     for _ in range(40 if quick else 200):
         nc = rng.choice([1, 2, 2, 3])
         steps = []
@@ -118,7 +119,15 @@ def blind_histories(ctx):
             o, v = rng.choice(alphabet)
             steps.append(op(o + ("!" + v if v else ""), rng.randrange(1, nc + 1) if o in LIFE else 0, rng.randrange(4)))
         walks.append((nc, steps))
-    return [("catalogue", 2 + len(LIFE), cat, False)] + [("random-%dc" % k, k, [s for (n, s) in walks if n == k], False) for k in (1, 2, 3)]
+    # a request re-sent with the SAME seed but other metadata / own metadata, in every state where it is legal
+    resend = []
+    for state, pre in sorted(REACH.items()):
+        steps = [op(s, 1, 3) for s in pre]
+        for y in (1, 2, 0, 3):
+            steps.append(op("enq!sameseed", 1, y))
+        steps += [dict(RESTART), op("recv!sameseed", 1, 1), op("enq!sameseed", 1, 2)]
+        resend.append(steps)
+    return [("resend", 1, resend, False)] + [("catalogue", 2 + len(LIFE), cat, False)] + [("random-%dc" % k, k, [s for (n, s) in walks if n == k], False) for k in (1, 2, 3)]
 
 
 def batch(plans, per_script, rng):
